@@ -70,23 +70,112 @@ def nontrivial_key(case_line, obs):
     i = case_line.index("(tmpl ")
     return hash(case_line[i:])
 
-def run_corr(ctx, rep, profiles, fields, oracle=None, classify=None, timeout_ms=4000):
-    """profiles: list of (profile name, n_quick, n_thorough).  fields: projected observables.
-    oracle(case_line, impl_obs, model_obs) -> None | str (property fails on impl for this case).
-    classify(case_line, impl_obs, model_obs, problem) -> quirk id | None (attribution to a known finding)."""
+QUIRKS = ["lit_eof", "stale_ctx", "recover_scope", "memo_nocharge"]
+
+def quirk_bits(off=None):
+    off = off or ()
+    if isinstance(off, str):
+        off = (off,)
+    return "".join("0" if q in off else "1" for q in QUIRKS)
+
+def quirk_subsets():
+    import itertools
+    for k in range(1, len(QUIRKS) + 1):
+        for sub in itertools.combinations(QUIRKS, k):
+            yield sub
+
+def norm_field(f, v):
+    """maxfail is printed as pos:invertflag:[expected]; the flag is not part of any claim."""
+    if f == "maxfail" and v:
+        parts = v.split(":")
+        if len(parts) >= 3:
+            return parts[0] + ":" + ":".join(parts[2:])
+    return v
+
+def strip_pred_ctx(trace):
+    """code-block trace with c.text / c.pos of predicate and state blocks blanked (those are
+    C02's business: the stale-context finding)."""
+    if not trace:
+        return trace
+    out = []
+    for ev in trace.split(";"):
+        if ev and ev[0] in "PNS":
+            parts = ev.split(":")
+            parts = [p for p in parts if not (p.startswith("t=") or p.startswith("p="))]
+            ev = ":".join(parts)
+        out.append(ev)
+    return ";".join(out)
+
+def getf(obs, f):
+    if f == "trace_noctx":
+        return strip_pred_ctx(obs.get("trace"))
+    return norm_field(f, obs.get(f))
+
+def same_on(fields, a, b):
+    ao, bo = a.get("out"), b.get("out")
+    if ao in corr.NONTERM or bo in corr.NONTERM:
+        return ao in corr.NONTERM and bo in corr.NONTERM
+    for f in fields:
+        if getf(a, f) != getf(b, f):
+            return False
+    return True
+
+def first_diff(fields, a, b):
+    ao, bo = a.get("out"), b.get("out")
+    if ao in corr.NONTERM or bo in corr.NONTERM:
+        return "out"
+    for f in fields:
+        if getf(a, f) != getf(b, f):
+            return f
+    return None
+
+def default_scope(case_line):
+    """Cases inside the scope of the refinement theorem (parse_refines_rparse), read
+    generously: Memoize off (or a template without memoisation), no left-recursive rules."""
+    o = corr.case_opts(case_line)
+    t = corr.case_tmpl(case_line)
+    if o["memo"] and not t[0]:
+        return False
+    import re
+    if re.search(r"\(rule x[0-9a-f]* x[0-9a-f]* (1 [01]|[01] 1) ", case_line):
+        return False
+    return True
+
+def run_corr(ctx, rep, profiles, fields, oracle=None, classify=None, timeout_ms=4000,
+             ref_fields=None, scope=default_scope, known_quirks=None, derive=None):
+    """profiles: list of (profile name, n_quick, n_thorough).
+    fields: observables on which the model (faithful quirks) and the implementation must agree.
+    ref_fields: observables on which the implementation must agree with the specification Ref
+      on the cases selected by scope(); a disagreement is attributed to a quirk when the model
+      with exactly that quirk switched off agrees with Ref (and is then a known finding only if
+      known_quirks lists it), otherwise it is a violation.
+    oracle(case_line, impl_obs, model_obs) -> None | str : property-specific check on the implementation.
+    classify(case_line, impl_obs, model_obs, problem) -> finding id | None.
+    derive(lines) -> extra case lines (twins) appended to the run."""
     hosts = ctx.hosts()
     tables = ctx.tables()
     driver = ctx.model()
+    known_quirks = known_quirks or {}
     total = 0
     nontriv = set()
     dist = collections.Counter()
     known_hits = collections.Counter()
+    all_impl, all_lines = {}, {}
     for (pname, nq, nt) in profiles:
         n = ctx.q(nq, nt)
         lines, pretty = corr.generate(ctx.sc, ctx.gen(), pname, ctx.seed, n)
+        if derive:
+            lines = lines + derive(lines)
         model = corr.run_model(ctx.sc, driver, tables, lines)
-        impl = corr.run_impl(ctx.sc, hosts, lines, timeout_ms)
+        diverging = {cid for cid, o in model.items() if o.get("out") in corr.NONTERM}
+        fast = [l for l in lines if corr.case_id(l) not in diverging]
+        slow = [l for l in lines if corr.case_id(l) in diverging]
+        impl = corr.run_impl(ctx.sc, hosts, fast, timeout_ms)
+        if slow:
+            impl.update(corr.run_impl(ctx.sc, hosts, slow, 700))
         by_id = {corr.case_id(l): l for l in lines}
+        all_impl.update(impl)
+        all_lines.update(by_id)
         total += len(lines)
         for cid, l in by_id.items():
             io = impl.get(cid, {})
@@ -101,25 +190,55 @@ def run_corr(ctx, rep, profiles, fields, oracle=None, classify=None, timeout_ms=
                 dist["value_non_nil"] += 1
             if io.get("trace"):
                 dist["with_code_blocks_run"] += 1
-        # correspondence on projected fields
-        for (cid, field, mv, iv) in corr.compare(model, impl):
-            if field not in fields and field not in ("out", "missing"):
-                # re-compare only the projected fields
-                m, i = model[cid], impl.get(cid, {})
-                bad = [f for f in fields if m.get(f) != i.get(f)]
-                if not bad:
+        # (1) correspondence model(faithful) <-> implementation on the projected fields
+        for cid, l in by_id.items():
+            m, i = model.get(cid, {}), impl.get(cid, {})
+            if not same_on(fields, m, i):
+                f = first_diff(fields, m, i)
+                problem = "model/implementation disagree on %s" % f
+                q = classify(l, i, m, problem) if classify else None
+                if q:
+                    known_hits[q] += 1
                     continue
-                field, mv, iv = bad[0], m.get(bad[0]), i.get(bad[0])
-            l = by_id[cid]
-            problem = "model/implementation disagree on %s" % field
-            q = classify(l, impl.get(cid, {}), model.get(cid, {}), problem) if classify else None
-            if q:
-                known_hits[q] += 1
-                continue
-            rep.violation(problem, {"case": l, "field": field, "model": model.get(cid), "impl": impl.get(cid),
-                                    "grammars": pretty_of(pretty, cid)},
-                          found=bool(oracle and oracle(l, impl.get(cid, {}), model.get(cid, {}))))
-        # property oracle on every case
+                rep.violation(problem, {"case": l, "field": f, "model": m, "impl": i, "grammars": pretty_of(pretty, cid)},
+                              found=bool(oracle and oracle(l, i, m)))
+        # (2) the implementation against the specification
+        if ref_fields:
+            inscope = [l for l in lines if scope(l)]
+            ref = corr.run_model(ctx.sc, driver, tables, inscope, extra="-ref", tag="ref")
+            dist["compared_with_Ref"] += len(inscope)
+            bad = [l for l in inscope if not same_on(ref_fields, impl.get(corr.case_id(l), {}), ref.get(corr.case_id(l), {}))]
+            attributed = {}
+            todo = list(bad)
+            for sub in quirk_subsets():          # smallest set of repaired quirks that explains the difference
+                if not todo:
+                    break
+                mq = corr.run_model(ctx.sc, driver, tables, todo, extra="-quirks " + quirk_bits(off=sub), tag="q_" + "_".join(sub))
+                rest = []
+                for l in todo:
+                    cid = corr.case_id(l)
+                    if same_on(ref_fields, mq.get(cid, {}), ref.get(cid, {})):
+                        attributed[cid] = sub
+                    else:
+                        rest.append(l)
+                todo = rest
+            for l in bad:
+                cid = corr.case_id(l)
+                i, r = impl.get(cid, {}), ref.get(cid, {})
+                f = first_diff(ref_fields, i, r)
+                q = attributed.get(cid)
+                if q and all(x in known_quirks for x in q):
+                    for x in q:
+                        known_hits[known_quirks[x]] += 1
+                    continue
+                q2 = classify(l, i, model.get(cid, {}), "implementation/specification disagree on %s" % f) if classify else None
+                if q2:
+                    known_hits[q2] += 1
+                    continue
+                rep.violation("implementation and specification (Ref) disagree on %s%s" % (f, (" [quirks %s]" % ",".join(q)) if q else ""),
+                              {"case": l, "field": f, "ref": r, "impl": i, "model": model.get(cid), "attributed_quirk": q,
+                               "grammars": pretty_of(pretty, cid)}, found=True)
+        # (3) property oracle on every case
         if oracle:
             for cid, l in by_id.items():
                 msg = oracle(l, impl.get(cid, {}), model.get(cid, {}))
@@ -130,15 +249,22 @@ def run_corr(ctx, rep, profiles, fields, oracle=None, classify=None, timeout_ms=
                         continue
                     rep.violation(msg, {"case": l, "impl": impl.get(cid), "model": model.get(cid),
                                         "grammars": pretty_of(pretty, cid)}, found=True)
-        if not rep.samples and lines:
-            for l in lines[:3]:
+        if len(rep.samples) < 3 and lines:
+            for l in lines[:2]:
                 cid = corr.case_id(l)
-                rep.samples.append({"case": l[:600], "impl": impl.get(cid), "profile": pname})
+                rep.samples.append({"case": l[:700], "impl": impl.get(cid), "profile": pname,
+                                    "grammar": pretty_of(pretty, cid)})
     rep.cov["evaluations"] = rep.cov.get("evaluations", 0) + total
     rep.cov["distinct_nontrivial"] = rep.cov.get("distinct_nontrivial", 0) + len(nontriv)
-    rep.cov.setdefault("distribution", {}).update(dist)
+    d0 = rep.cov.setdefault("distribution", {})
+    for k, v in dist.items():
+        d0[k] = d0.get(k, 0) + v
     if known_hits:
-        rep.cov.setdefault("cases_attributed_to_known_findings", {}).update(known_hits)
+        d1 = rep.cov.setdefault("cases_attributed_to_known_findings", {})
+        for k, v in known_hits.items():
+            d1[k] = d1.get(k, 0) + v
+    rep.impl_obs = all_impl
+    rep.case_lines = all_lines
     return rep
 
 def pretty_of(pretty_path, cid):
